@@ -14,6 +14,8 @@ structure Seg where
   started : Bool
   pstart : Nat
   plen : Nat
+  /-- first cell removed by `tamper trunc` (see `Seg::guard` in the adapter) -/
+  guard : Option TCell := none
 
 structure Live where
   P : Params
@@ -25,6 +27,7 @@ structure Live where
   hdr : List Nat
   bodyNeed : Nat
   nextP : Nat
+  guard : Option TCell := none
   wpos : Nat
   rfused : Bool
   wfused : Bool
@@ -70,30 +73,44 @@ def pushWire (l : Live) (b : TCell) : Live :=
     { l with segs := segs, hdr := [], bodyNeed := need, nextP := l.nextP + plen }
   else { l with segs := segs, hdr := hdr, bodyNeed := need }
 
-partial def deliverLoop (segs : Array Seg) (str : Array TCell) (k moved : Nat) :
-    Array Seg × Array TCell × Nat :=
-  if k = 0 then (segs, str, moved)
+/-- The cell delivered right after a truncated frame differs from the first removed one. -/
+def guardFix (g : Option TCell) (c : TCell) : TCell :=
+  match g, c with
+  | some (.raw gv), .raw v => if v = gv then .raw (v ^^^ 1) else c
+  | _, _ => c
+
+partial def deliverLoop (segs : Array Seg) (str : Array TCell) (guard : Option TCell) (k moved : Nat) :
+    Array Seg × Array TCell × Option TCell × Nat :=
+  if k = 0 then (segs, str, guard, moved)
   else
     match segs[0]? with
-    | none => (segs, str, moved)
+    | none => (segs, str, guard, moved)
     | some s =>
       let avail := s.cells.size - s.head
       if avail = 0 then
-        if s.complete then deliverLoop (segs.eraseIdxIfInBounds 0) str k moved else (segs, str, moved)
+        if s.complete then
+          deliverLoop (segs.eraseIdxIfInBounds 0) str (if s.guard.isSome then s.guard else guard) k moved
+        else (segs, str, guard, moved)
       else
         let m := min k avail
-        let str := str ++ s.cells.extract s.head (s.head + m)
+        let chunk := s.cells.extract s.head (s.head + m)
+        let chunk := if guard.isSome then chunk.modify 0 (guardFix guard) else chunk
+        let str := str ++ chunk
         let segs := segs.modify 0 fun s => { s with head := s.head + m, started := true }
-        deliverLoop segs str (k - m) (moved + m)
+        deliverLoop segs str none (k - m) (moved + m)
 
-partial def dropExhausted (segs : Array Seg) : Array Seg :=
+partial def dropExhausted (segs : Array Seg) (guard : Option TCell) : Array Seg × Option TCell :=
   match segs[0]? with
-  | some s => if s.complete && s.cells.size - s.head = 0 then dropExhausted (segs.eraseIdxIfInBounds 0) else segs
-  | none => segs
+  | some s =>
+    if s.complete && s.cells.size - s.head = 0 then
+      dropExhausted (segs.eraseIdxIfInBounds 0) (if s.guard.isSome then s.guard else guard)
+    else (segs, guard)
+  | none => (segs, guard)
 
 def deliver (l : Live) (k : Nat) : Live × Nat :=
-  let (segs, str, moved) := deliverLoop l.segs l.rc.str k 0
-  ({ l with segs := dropExhausted segs, rc := { l.rc with str := str } }, moved)
+  let (segs, str, guard, moved) := deliverLoop l.segs l.rc.str l.guard k 0
+  let (segs, guard) := dropExhausted segs guard
+  ({ l with segs := segs, guard := guard, rc := { l.rc with str := str } }, moved)
 
 def tamperable (l : Live) : List Nat :=
   (List.range l.segs.size).filter fun i =>
@@ -228,7 +245,9 @@ def stepLive (l : Live) (ts : List String) : Live × String :=
             let cut := 1 + (max cut 1 - 1) % len
             if len - cut = 0 then ({ l with segs := l.segs.eraseIdxIfInBounds si }, done)
             else
-              ({ l with segs := l.segs.setIfInBounds si { seg with cells := seg.cells.extract 0 (len - cut) } }, done)
+              let seg' : Seg := { seg with cells := seg.cells.extract 0 (len - cut),
+                                           guard := if seg.guard.isSome then seg.guard else seg.cells[len - cut]? }
+              ({ l with segs := l.segs.setIfInBounds si seg' }, done)
           | "dup", [] => ({ l with segs := l.segs.insertIdxIfInBounds (si + 1) seg }, done)
           | "drop", [] => ({ l with segs := l.segs.eraseIdxIfInBounds si }, done)
           | "swap", [] =>
